@@ -8,6 +8,7 @@ import (
 	"os/exec"
 	"path/filepath"
 	"regexp"
+	"runtime"
 	"sort"
 	"strings"
 	"sync/atomic"
@@ -200,4 +201,143 @@ func runNativeFuzz(r interface {
 		r.Violation("", "native fuzzing ("+target+") found a failing input:\n"+lastLines(text, 12), map[string]interface{}{"fuzz_target": target, "corpus_entry": string(b)})
 		os.Remove(f)
 	}
+}
+
+// ---- structural lock-deadlock witness (used inside child workers) ----
+
+var (
+	gHeader   = regexp.MustCompile(`^goroutine (\d+) \[([^\],]+)(?:, [^\]]*)?\]:`)
+	gAddrs    = regexp.MustCompile(`\+0x[0-9a-f]+|0x[0-9a-f]+`)
+	repoFrame = regexp.MustCompile(`facebookincubator/dns/dnsrocks/(dnsserver|db|fbserver|metrics)\.`)
+)
+
+type gState struct {
+	id, state, stack string
+}
+
+// repoGoroutines lists the goroutines that are inside the repository's serving code.
+func repoGoroutines() []gState {
+	buf := make([]byte, 16<<20)
+	buf = buf[:runtime.Stack(buf, true)]
+	var out []gState
+	for _, g := range strings.Split(string(buf), "\n\n") {
+		m := gHeader.FindStringSubmatch(g)
+		own := g
+		if i := strings.Index(own, "\ncreated by "); i >= 0 {
+			own = own[:i] // the creator's name is not a frame of this goroutine
+		}
+		if m == nil || !repoFrame.MatchString(own) {
+			continue
+		}
+		nl := strings.IndexByte(g, '\n')
+		body := ""
+		if nl >= 0 {
+			body = gAddrs.ReplaceAllString(g[nl+1:], "")
+		}
+		out = append(out, gState{m[1], m[2], body})
+	}
+	return out
+}
+
+// lockDeadlockWitness decides structurally whether the serving code is deadlocked on its own locks:
+// in three dumps taken 2 s apart every goroutine that is inside the serving code is either blocked
+// acquiring a sync.Mutex/RWMutex or idle in a wait that only other serving goroutines can end
+// (select / chan receive / sleep / IO wait), none is running, runnable, in a system or cgo call or
+// parked by the harness, the blocked set and its stacks are identical in all dumps, and it contains a
+// waiting writer together with a waiting reader or two waiters of a plain mutex. The caller has
+// already seen its progress counter stand still; wall-clock alone never gives this verdict.
+func lockDeadlockWitness(progress func() int64) string {
+	isLock := func(s string) bool {
+		return strings.HasPrefix(s, "sync.RWMutex.") || strings.HasPrefix(s, "sync.Mutex.") || s == "semacquire"
+	}
+	isIdle := func(s string) bool {
+		return s == "select" || s == "chan receive" || s == "sleep" || s == "IO wait" || s == "sync.Cond.Wait" || s == "sync.WaitGroup.Wait" || s == "select (no cases)"
+	}
+	p0 := progress()
+	var first map[string]string
+	var firstList []gState
+	for round := 0; round < 3; round++ {
+		if round > 0 {
+			time.Sleep(2 * time.Second)
+		}
+		if progress() != p0 {
+			return ""
+		}
+		gs := repoGoroutines()
+		blocked := map[string]string{}
+		var list []gState
+		readers, writers, plain := 0, 0, 0
+		for _, g := range gs {
+			if strings.Contains(g.stack, "verif/internal/sched.") {
+				return "" // the harness itself is holding a goroutine
+			}
+			switch {
+			case isLock(g.state):
+				blocked[g.id] = g.state + "\n" + g.stack
+				list = append(list, g)
+				switch {
+				case strings.Contains(g.state, "RLock"):
+					readers++
+				case strings.Contains(g.state, "RWMutex.Lock"):
+					writers++
+				default:
+					plain++
+				}
+			case isIdle(g.state):
+			default:
+				return "" // somebody is running / runnable / in a system or cgo call
+			}
+		}
+		if !(writers >= 1 && readers >= 1 || plain >= 2) {
+			return ""
+		}
+		if round == 0 {
+			first, firstList = blocked, list
+			continue
+		}
+		if len(blocked) != len(first) {
+			return ""
+		}
+		for id, st := range blocked {
+			if first[id] != st {
+				return ""
+			}
+		}
+	}
+	var sb strings.Builder
+	for i, g := range firstList {
+		if i >= 6 {
+			fmt.Fprintf(&sb, "... and %d more blocked goroutines\n", len(firstList)-i)
+			break
+		}
+		lines := strings.Split(g.stack, "\n")
+		if len(lines) > 14 {
+			lines = lines[:14]
+		}
+		fmt.Fprintf(&sb, "goroutine %s [%s]:\n%s\n", g.id, g.state, strings.Join(lines, "\n"))
+	}
+	return sb.String()
+}
+
+// watchForLockDeadlock runs in a child worker: when the progress counter has stood still for `quiet`
+// it looks for a structural witness; with one, it reports through the summary line and ends the process.
+func watchForLockDeadlock(progress func() int64, quiet time.Duration, where func() string) {
+	go func() {
+		last, since := progress(), time.Now()
+		for {
+			time.Sleep(time.Second)
+			if p := progress(); p != last {
+				last, since = p, time.Now()
+				continue
+			}
+			if time.Since(since) < quiet {
+				continue
+			}
+			if w := lockDeadlockWitness(progress); w != "" {
+				summary(map[string]interface{}{"deadlock": w, "deadlock_at": where()})
+				os.Exit(68)
+			}
+			since = time.Now() // no witness: keep waiting, the parent's watchdog stays the (inconclusive) backstop
+		}
+	}()
 }
